@@ -480,6 +480,8 @@ def constructor_state(R, E, F, state_adt, expect, rule):
                 ok = got is not None and got[0] == 'agg' and got[2] == 'new'
             elif want[0] == 'variant':
                 ok = got is not None and got[0] == 'agg' and got[2] == want[1]
+            elif want[0] == 'variant-in':
+                ok = got is not None and got[0] == 'agg' and got[2] in want[1]
             elif want[0] == 'zero-id':
                 ok = got is not None and got[0] == 'agg' and got[3] and got[3][0][1] == ('const', 0)
             else:
@@ -615,3 +617,63 @@ def fair_no_requeue(R, E, F, m, paths, owns, rule, what, excluded=None, initial=
                        'node did not enter in its initial state: a waiter that was already queued moves behind later arrivals '
                        '[%s]' % (m['path'], what, path_cond(E, path)), where(F, e), {'trace': trace_summary(path)})
     return n
+
+
+# ---------------------------------------------------------------------- futures start in the initial node state
+def futures_start_initial(C, R, cfg, state_adts, rule, any_unlinked=False):
+    """Every future of these primitives is constructed with its wait node in the initial (never polled, unlinked)
+    poll state and without a stored waker: whether a wait completes is decided by its first POLL, inside the lock,
+    never at construction time.  Evaluated on every MIR path of every construction site.  returns #instances"""
+    from specs import TYPESTATE
+    from engine import NONE as _NONE, fmt_val as _fv
+    F = C.facts(cfg)
+    E = C.engine(cfg)
+    roles = C.roles(cfg)
+    n = 0
+    for sp in state_adts:
+        for q, (_k, data) in sorted(roles.state_structs[sp]['queues'].items()):
+            initial = list(TYPESTATE[sp][q])[0]
+            accepted = [v for v, linked in TYPESTATE[sp][q].items() if linked is False] if any_unlinked else [initial]
+            nd = roles.node_data[data]
+            for fut, info in sorted(roles.futures.items()):
+                if info['data'] != data:
+                    continue
+                mod = sp.rsplit('::', 1)[0]
+                ctors = sorted(set(f2['path'] for f2, s2, cl in scan_aggregates(F, fut)
+                                   if not cl and f2['path'].lstrip('<').startswith(mod + '::')))
+                for cp in ctors:
+                    for path in E.run(cp):
+                        if path.exit != 'return':
+                            continue
+                        aggs = []
+                        _find_adt_aggs(path.ret, fut, aggs)
+                        for a in aggs:
+                            n += 1
+                            node = dict(a[3]).get(info['node_field'])
+                            dv = None
+                            if node is not None and node[0] == 'agg':
+                                dv = dict(node[3]).get('data')
+                            st = dict(dv[3]).get(nd['state_field']) if dv is not None and dv[0] == 'agg' else None
+                            tk = dict(dv[3]).get(nd['task_field']) if dv is not None and dv[0] == 'agg' and nd.get('task_field') else _NONE
+                            if st is not None and st[0] == 'agg' and st[2] in accepted and (tk == _NONE or any_unlinked):
+                                R.ok(rule, '%s|%s starts %s|%s' % (cp, fut.split('::')[-1], st[2], path_cond(E, path)))
+                            else:
+                                R.fail(rule, [cp, 'future-constructed-in-non-initial-state', fut.split('::')[-1]],
+                                       '%s hands out %s with its wait node in state %s (accepted: %s): %s [%s]'
+                                       % (cp, fut.split('::')[-1], _fv(st) if st else '?', '/'.join(accepted),
+                                          'the node claims to be queued but is not' if any_unlinked else
+                                          'completion is decided at construction, outside the lock and before the '
+                                          'first poll', path_cond(E, path)),
+                                       '%s:%s' % (F.fn(cp)['file'], F.fn(cp)['line']), {'trace': trace_summary(path)})
+    return n
+
+
+def _find_adt_aggs(v, adt, out, depth=0):
+    if not isinstance(v, tuple) or depth > 8:
+        return
+    if v and v[0] == 'agg' and v[1] == adt:
+        out.append(v)
+        return
+    for x in v:
+        if isinstance(x, tuple):
+            _find_adt_aggs(x, adt, out, depth + 1)
